@@ -19,6 +19,7 @@ struct G {
     next_gid: u32,
     edits: usize,
     last_ix: usize,
+    cursors: Vec<usize>,
 }
 
 fn gen_ddesc(shape: &Shape, cfg: &Config, rng: &mut Rng, top: bool, tag: u32) -> DDesc {
@@ -29,7 +30,15 @@ fn gen_ddesc(shape: &Shape, cfg: &Config, rng: &mut Rng, top: bool, tag: u32) ->
             0..=39 => DDesc::SetAdd { m },
             40..=49 if !cfg.misuse => {
                 let mut ms: Vec<u8> = (0..cfg.nmembers.max(2)).filter(|_| rng.chance(2, 3)).collect();
-                if ms.len() < 2 {
+                if cfg.odd_inputs && rng.chance(1, 3) {
+                    // empty, or with a repeated member
+                    if rng.chance(1, 2) {
+                        ms.clear();
+                    } else {
+                        ms.push(m);
+                        ms.push(m);
+                    }
+                } else if ms.len() < 2 {
                     ms = vec![0, 1];
                 }
                 DDesc::SetAddAll { ms }
@@ -38,7 +47,14 @@ fn gen_ddesc(shape: &Shape, cfg: &Config, rng: &mut Rng, top: bool, tag: u32) ->
             _ => {
                 if top {
                     let mut ms: Vec<u8> = (0..cfg.nmembers.max(1)).filter(|_| rng.chance(2, 3)).collect();
-                    if ms.is_empty() {
+                    if cfg.odd_inputs && rng.chance(1, 3) {
+                        if rng.chance(1, 2) {
+                            ms.clear();
+                        } else {
+                            ms.push(m);
+                            ms.push(m);
+                        }
+                    } else if ms.is_empty() {
                         ms = vec![m];
                     }
                     DDesc::SetRmAll { ms }
@@ -59,6 +75,23 @@ fn gen_ddesc(shape: &Shape, cfg: &Config, rng: &mut Rng, top: bool, tag: u32) ->
     }
 }
 
+/// counter step: small, zero, and — with unusual inputs on — occasionally huge
+fn step(cfg: &Config, rng: &mut Rng) -> u64 {
+    if cfg.odd_inputs && rng.chance(1, 4) {
+        match rng.below(5) {
+            0 => u32::MAX as u64,
+            // beyond 2^53 (not exact in a double) and odd
+            1 => (1u64 << 53) + 1 + 2 * rng.below(4) as u64,
+            // two such actors sum past 2^64: the read must not be computed in a machine word
+            2 => (1u64 << 63) - 1 - rng.below(3) as u64,
+            3 => (1u64 << 62) + 3,
+            _ => 255 + rng.below(3) as u64,
+        }
+    } else {
+        rng.below(5) as u64
+    }
+}
+
 fn seq_len<S: Sut>(w: &World<S>, n: usize) -> usize {
     match &w.nodes[n].last_obs {
         Some(Obs::Seq { vals, .. }) => vals.len(),
@@ -75,14 +108,14 @@ fn gen_desc<S: Sut>(w: &World<S>, g: &mut G, node: usize, tag: u32) -> Desc {
             if rng.chance(1, 2) {
                 Desc::Inc
             } else {
-                Desc::IncMany(rng.below(5) as u64)
+                Desc::IncMany(step(cfg, rng))
             }
         }
         Family::PNCounter => match rng.below(4) {
             0 => Desc::Inc,
             1 => Desc::Dec,
-            2 => Desc::IncMany(rng.below(5) as u64),
-            _ => Desc::DecMany(rng.below(5) as u64),
+            2 => Desc::IncMany(step(cfg, rng)),
+            _ => Desc::DecMany(step(cfg, rng)),
         },
         Family::VClock => Desc::Inc,
         Family::GSet => Desc::Put(rng.below(6) as u64),
@@ -91,6 +124,23 @@ fn gen_desc<S: Sut>(w: &World<S>, g: &mut G, node: usize, tag: u32) -> Desc {
             v: if cfg.dup_values && rng.chance(1, 2) { 1 + rng.below(2) as u64 } else { 100 + tag as u64 },
             reuse_marker: cfg.misuse && rng.chance(1, 3),
         },
+        Family::List | Family::GList if cfg.long_typing => {
+            // forward typing: two base elements first, then every replica keeps inserting right after its
+            // own previous insertion
+            let len = seq_len(w, node);
+            let v = 100 + tag as u64;
+            let is_list = w.family == Family::List;
+            if len < 2 {
+                return if is_list { Desc::LApp { v } } else { Desc::GIns { ix: len, v } };
+            }
+            let ix = g.cursors[node].min(len.saturating_sub(1)).max(1);
+            g.cursors[node] = ix + 1;
+            if is_list {
+                Desc::LIns { ix, v }
+            } else {
+                Desc::GIns { ix, v }
+            }
+        }
         Family::List => {
             let len = seq_len(w, node);
             let v = 100 + tag as u64;
@@ -99,7 +149,13 @@ fn gen_desc<S: Sut>(w: &World<S>, g: &mut G, node: usize, tag: u32) -> Desc {
                 0 => 0,
                 1 | 2 => g.last_ix.min(len),
                 3 => len,
-                4 => len + 1 + rng.below(3),
+                4 => {
+                    if cfg.odd_inputs && rng.chance(1, 3) {
+                        usize::MAX / 2
+                    } else {
+                        len + 1 + rng.below(3)
+                    }
+                }
                 _ => rng.below(len + 1),
             };
             let d = match rng.below(10) {
@@ -432,7 +488,7 @@ fn exec_record<S: Sut>(w: &mut World<S>, events: &mut Vec<Ev>, ev: Ev) -> Result
 
 pub fn generate<S: Sut>(cfg: &Config, seed: u64, log: bool) -> Generated<S> {
     let mut w: World<S> = World::new(cfg, log);
-    let mut g = G { rng: Rng::new(seed), next_tag: 1, next_gid: 1, edits: 0, last_ix: 0 };
+    let mut g = G { rng: Rng::new(seed), next_tag: 1, next_gid: 1, edits: 0, last_ix: 0, cursors: vec![1; cfg.nodes] };
     let mut events: Vec<Ev> = vec![];
     let mut attempts = 0usize;
     macro_rules! run {
@@ -468,7 +524,11 @@ pub fn generate<S: Sut>(cfg: &Config, seed: u64, log: bool) -> Generated<S> {
             if ups.is_empty() {
                 continue;
             }
-            let node = *g.rng.pick(&ups);
+            let mut node = *g.rng.pick(&ups);
+            if cfg.long_typing && w.up(0) && g.rng.chance(3, 4) {
+                // one main typist, so that a single run of insertions gets really long
+                node = 0;
+            }
             let tag = g.next_tag;
             g.next_tag += 1;
             let desc = gen_desc(&w, &mut g, node, tag);
